@@ -13,11 +13,14 @@ use std::sync::Arc;
 
 mod wire;
 mod s_basic;
+mod s_lex;
+mod memreader;
+mod s_parse;
 
 pub type Handler = fn(&[&str]) -> String;
 
 fn dispatch(cmd: &str) -> Option<Handler> {
-    s_basic::dispatch(cmd)
+    s_basic::dispatch(cmd).or_else(|| s_lex::dispatch(cmd)).or_else(|| s_parse::dispatch(cmd))
 }
 
 fn main() {
